@@ -156,7 +156,9 @@ func Spellings() []Input {
 		}
 	}
 	// conditional attributes written on one line and over several lines, alone and among other attributes
-	conds := []string{"if b { class=\"a\" }", "if b { class=\"a\" } else { class=\"b\" }", "if b { title={ x } hidden }", "if b {\n\t\tclass=\"a\"\n\t}", "if b { if x != \"\" { id=\"n\" } }", "if b { { xs... } }"}
+	conds := []string{"if b { class=\"a\" }", "if b { class=\"a\" } else { class=\"b\" }", "if b { title={ x } hidden }", "if b {\n\t\tclass=\"a\"\n\t}", "if b { if x != \"\" { id=\"n\" } }", "if b { { xs... } }",
+		// class expressions (which the generator rewrites) at conditional depth 1, 2 and 3
+		"if b { class={ x } }", "if b { if x != \"\" { class={ x, \"k\" } } }", "if b { class={ x } } else { if x == \"\" { class={ \"k\" } } else { if b { class={ x + \"!\" } } } }"}
 	for _, c := range conds {
 		for _, shape := range []string{"\t<div %s>t</div>", "\t<div id=\"k\" %s title={ x }>t</div>", "\t<input %s/>", "\t<div\n\t\tid=\"k\"\n\t\t%s\n\t>t</div>", "\t<span>a</span><a %s>l</a>"} {
 			if strings.Contains(c, "xs...") {
